@@ -51,6 +51,18 @@ def group_lrs(agent, opt_name):
     return [g["lr"] for o in opts for g in o.param_groups]
 
 
+def step_all(agent, opt_names):
+    """one real optimiser step with zero gradients: afterwards every optimiser carries per-parameter state (as after learn())"""
+    for on in opt_names:
+        w = getattr(agent, on)
+        opts = w.optimizer if isinstance(w.optimizer, list) else [w.optimizer]
+        for o in opts:
+            for g in o.param_groups:
+                for p_ in g["params"]:
+                    p_.grad = torch.zeros_like(p_)
+            o.step()
+
+
 def trunc(x):
     if isinstance(x, Sym):
         return sym_int(x)
@@ -70,10 +82,11 @@ class HpMutation(Case):
 
     INT_FACTORS = (0.8, 1.2)
 
-    def __init__(self, algo, hps, n_agents=2, history="initial", second=False, one_lr_object=False):
+    def __init__(self, algo, hps, n_agents=2, history="initial", second=False, one_lr_object=False, mixed=False):
         self.algo, self.hps, self.n, self.history, self.second = algo, tuple(hps), n_agents, history, second
-        self.one_lr_object = one_lr_object
-        self.name = f"hpmut-{algo.lower()}-{'+'.join(hps)}-pop{n_agents}-{history}" + ("-twice" if second else "") + ("-one-lr-object" if one_lr_object else "")
+        self.one_lr_object, self.mixed = one_lr_object, mixed
+        self.name = (f"hpmut-{algo.lower()}-{'+'.join(hps)}-pop{n_agents}-{history}" + ("-twice" if second else "") + ("-one-lr-object" if one_lr_object else "")
+                     + ("-bounds-of-the-other-number-type" if mixed else ""))
         self.site = "Mutations.rl_hyperparam_mutation"
         # the INIT_HP of this case binds LR_ACTOR and LR_CRITIC to ONE float object (as two equal literals in one dict do)
         self.fsite = "OptimizerWrapper._infer_lr_name/one-object-for-two-learning-rates" if one_lr_object else None
@@ -91,7 +104,15 @@ class HpMutation(Case):
         for h in self.hps:
             kind = kinds[h]
             zk = "int" if kind == "int" else "real"
-            mn, mx = v.scalar(f"{h}.min", zk), v.scalar(f"{h}.max", zk)
+            if not self.mixed:
+                mn, mx = v.scalar(f"{h}.min", zk), v.scalar(f"{h}.max", zk)
+            elif kind == "int":
+                # integral bounds written as floats (min=1.6e1, max=1e2)
+                imn, imx = v.int(f"{h}.min"), v.int(f"{h}.max")
+                mn, mx = (sym_float(imn), sym_float(imx)) if sym else (float(imn), float(imx))
+            else:
+                # bounds of a float hyper-parameter written as ints (max=1)
+                mn, mx = v.int(f"{h}.min"), v.int(f"{h}.max")
             if kind != "int":
                 sh, gr = v.real(f"{h}.shrink"), v.real(f"{h}.grow")
             else:
@@ -112,6 +133,10 @@ class HpMutation(Case):
             if self.history == "after-clone":
                 # a generation later: every member is a clone (tournament selection builds the next population from clones)
                 pop = [a.clone(index=10 + i) for i, a in enumerate(pop)]
+            if self.history == "after-step":
+                # in training: every optimiser has been stepped (it holds moments), as after a learn() call
+                for a in pop:
+                    step_all(a, [o for os_ in opt_of.values() for o in os_])
         except Exception as ex:   # noqa: BLE001
             raise HarnessError(f"could not build the population: {type(ex).__name__}: {ex}")
         for a in pop:
@@ -179,6 +204,9 @@ class HpMutation(Case):
                 obs.append(Ob(f"{tag}/{attr}/shrink-iff-draw-below-half", eq(new, ite(u < 0.5, exp_shrink, exp_grow)) if isinstance(u, Sym) else eq(new, exp_shrink if u < 0.5 else exp_grow),
                               site="rl_hyperparam_mutation/own-value"))
                 obs.append(Ob(f"{tag}/{attr}-in-configured-range", conj(ge(new, mn), le(new, mx)), site="rl_hyperparam_mutation/range"))
+                is_int = isinstance(new, (int, np.integer)) and not isinstance(new, bool) or type(new).__name__ == "SInt"
+                is_float = isinstance(new, (float, np.floating)) or type(new).__name__ in ("SReal", "Q")
+                obs.append(Ob(f"{tag}/{attr}-has-the-configured-number-type", is_int if kind == "int" else is_float, site="rl_hyperparam_mutation/number-type"))
                 if step == 0:
                     obs.append(Ob(f"{tag}/twin/{attr}-is-unchanged", eq(new, old), expect="sat"))
                 for h in self.hps:
@@ -206,10 +234,13 @@ class HpMutation(Case):
 def cases(tier):
     cs = [HpMutation("DQN", ["lr"]), HpMutation("DQN", ["lr", "batch_size"]), HpMutation("DQN", ["batch_size", "learn_step"], second=True),
           HpMutation("DDPG", ["lr_actor", "lr_critic"]), HpMutation("DQN", ["lr"], history="after-clone", second=True),
-          HpMutation("DDPG", ["lr_critic"], n_agents=1, one_lr_object=True),
+          HpMutation("DDPG", ["lr_critic"], n_agents=1, one_lr_object=True), HpMutation("DQN", ["lr"], n_agents=1, history="after-step"),
+          HpMutation("DDPG", ["lr_actor", "lr_critic"], n_agents=1, history="after-step"),
+          HpMutation("DQN", ["batch_size"], n_agents=1, mixed=True), HpMutation("DQN", ["gamma"], n_agents=1, mixed=True),
           HpMutation("PPO", ["lr"], n_agents=1), HpMutation("TD3", ["lr_critic"], n_agents=1), HpMutation("DQN", ["gamma", "tau"], n_agents=1, second=True)]
     if tier == "thorough":
         cs += [HpMutation("DQN", ["lr", "batch_size", "learn_step"], n_agents=3), HpMutation("DDPG", ["lr_actor", "lr_critic", "batch_size"]),
                HpMutation("TD3", ["lr_actor", "lr_critic"], history="after-clone"), HpMutation("PPO", ["lr", "batch_size"]),
-               HpMutation("MADDPG", ["lr_actor", "lr_critic"])]
+               HpMutation("MADDPG", ["lr_actor", "lr_critic"]), HpMutation("MADDPG", ["lr_critic"], n_agents=1, history="after-step"),
+               HpMutation("TD3", ["lr_actor", "lr_critic"], n_agents=1, history="after-step"), HpMutation("PPO", ["lr"], n_agents=1, history="after-step")]
     return cs
